@@ -1,12 +1,531 @@
-/- C10 model — placeholder until the property is built -/
+/-
+  C10 — the dictionary heap of klongpy: dictionaries are mutable CPython `dict` objects,
+  Klong variables (and dictionary values) hold *references* to them.
+
+  Mirrors (klongpy/…):
+    parser.py   kg_read ':{' + list_to_dict        -> `Dict.ofPairs` (later duplicate wins, parse time)
+    parser.py   copy_lambda (copy.deepcopy per evaluation of the literal)
+                                                   -> `Op.lit` / `Op.call` allocate a NEW heap cell
+                                                      holding the parsed prototype
+    dyads.py    eval_dyad_join  (a[b[0]] = b[1]; return a   — both operand orders)
+                                                   -> `Op.join`  (`Dict.set`, in place, returns the ref)
+    dyads.py    eval_dyad_find  (a.get(b), None -> :undefined)   -> `Op.find`  (`Dict.get`)
+    dyads.py    eval_dyad_drop  (del b[a], KeyError swallowed; return b) -> `Op.remove` (`Dict.del`)
+    dyads.py    eval_dyad_at_index on a dict:
+                   integer b -> a[b] (KeyError when missing); list b -> [a[x] for x in b];
+                   any other atom -> the dictionary itself  -> `Op.index` / `Op.indexMany`
+    monads.py   eval_monad_size (len(a))                    -> `Op.size`
+    adverbs.py  eval_adverb_each (f(pair) for pair in a.items()) -> `Op.each` (pairs in traversal order)
+    interpreter `x::d` binds the same object                 -> `Op.alias`
+
+  CPython's dict is modelled as an association list in insertion order whose key
+  comparison is Python's `==` on the hashable Klong atoms (`keyEq`): `1 == 1.0`, a KGChar
+  equals the one-character str with the same text (KGChar subclasses str), a KGSym equals
+  only a KGSym.  Values are opaque to every dictionary operation: `Val.data w` carries the
+  canonical text of any non-dictionary value, `Val.ref r` is a dictionary reference.
+
+  The abstract specification (`AState`, `specStep`, `specOut`) is a heap of finite maps
+  `NKey → Option Val` over key identities.
+-/
 import Klong.Model.Wire
 namespace Klong.C10
+open Klong.Wire
+
+/-! ### keys -/
+
+/-- a hashable Klong atom as written in the program (text of chars/strings/symbols as hex) -/
+inductive Key
+  | int (n : Int)
+  | real (p : Int) (k : Nat)      -- the double p / 2^k in lowest terms (k = 0 iff it is integral)
+  | chr (c : String)
+  | str (s : String)
+  | sym (s : String)
+deriving DecidableEq, Repr
+
+/-- key identity: the equivalence classes of Python `==` (with equal hashes) on those atoms -/
+inductive NKey
+  | num (n : Int)
+  | frac (p : Int) (k : Nat)
+  | text (s : String)
+  | sym (s : String)
+deriving DecidableEq, Repr
+
+def Key.norm : Key → NKey
+  | .int n => .num n
+  | .real p 0 => .num p
+  | .real p (k + 1) => .frac p (k + 1)
+  | .chr c => .text c
+  | .str s => .text s
+  | .sym s => .sym s
+
+/-- Python `stored == probe` for two hashable Klong atoms (repaired tree: symmetric) -/
+def keyEq (a b : Key) : Bool := a.norm == b.norm
+
+/-- the pinned tree's comparison: `KGChar.__eq__` is `str.__eq__`, which accepts a KGSym
+    with the same text, while `KGSym.__eq__` accepts only symbols (used for the recorded
+    witness only) -/
+def keyEqPinned (stored probe : Key) : Bool :=
+  match stored, probe with
+  | .chr c, .sym s => c == s
+  | a, b => keyEq a b
+
+/-! ### values and dictionaries -/
+
+inductive Val
+  | data (w : String)     -- canonical text of a non-dictionary value (any kind)
+  | ref (r : Nat)         -- a dictionary, by identity
+deriving DecidableEq, Repr
+
+/-- a CPython dict: insertion-ordered association list -/
+abbrev Dict := List (Key × Val)
+
+/-- `d.get(k)` with comparison `eq stored probe` -/
+def getBy (eq : Key → Key → Bool) (d : Dict) (k : Key) : Option Val :=
+  match d.find? (fun p => eq p.1 k) with
+  | some p => some p.2
+  | none => none
+
+/-- `d[k] = v`: an equal key keeps its stored key object and gets the new value, a new key
+    is appended -/
+def setBy (eq : Key → Key → Bool) : Dict → Key → Val → Dict
+  | [], k, v => [(k, v)]
+  | (k', v') :: rest, k, v =>
+    if eq k' k then (k', v) :: rest else (k', v') :: setBy eq rest k v
+
+def Dict.get (d : Dict) (k : Key) : Option Val := getBy keyEq d k
+def Dict.set (d : Dict) (k : Key) (v : Val) : Dict := setBy keyEq d k v
+
+/-- `del d[k]` with the KeyError swallowed -/
+def Dict.del (d : Dict) (k : Key) : Dict := d.filter (fun p => !keyEq p.1 k)
+
+/-- `list_to_dict`: `{x[0]: x[1] for x in pairs}` -/
+def ofPairsBy (eq : Key → Key → Bool) (ps : List (Key × Val)) : Dict :=
+  ps.foldl (fun d p => setBy eq d p.1 p.2) []
+
+def Dict.ofPairs (ps : List (Key × Val)) : Dict := ofPairsBy keyEq ps
+
+def lits (ps : List (Key × String)) : List (Key × Val) := ps.map (fun p => (p.1, .data p.2))
+
+/-! ### the machine -/
 
 structure State where
-  unit : Unit := ()
+  heap : List Dict                  -- reference r = position r
+  vars : List (String × Val)        -- latest binding first
+  protos : List (String × Dict)     -- function name ↦ the parsed literal it evaluates
+deriving Repr
 
-def init : State := {}
+def init : State := { heap := [], vars := [], protos := [] }
 
-def handle (s : State) (_ws : List String) : State × String := (s, "bad-op")
+/-- right operand of a join: a literal value or the current value of a variable -/
+inductive Arg
+  | data (w : String)
+  | var (x : String)
+deriving Repr
+
+inductive Op
+  | lit (x : String) (ps : List (Key × String))         -- x:::{[k v] …}
+  | deffn (f : String) (ps : List (Key × String))       -- f::{:{[k v] …}}
+  | call (x f : String)                                 -- x::f()
+  | join (left : Bool) (d : String) (k : Key) (a : Arg) (into : Option String)  -- [w::]d,[k v] / [k v],d
+  | remove (d : String) (k : Key) (into : Option String)                        -- [w::]k_d
+  | find (d : String) (k : Key) (into : Option String)                          -- [w::]d?k
+  | index (d : String) (k : Key) (into : Option String)                         -- [w::]d@k
+  | indexMany (d : String) (ks : List Key)                                      -- d@[k1 … kn]
+  | size (d : String)                                                           -- #d
+  | each (d : String)                                                           -- {x}'d
+  | alias (x d : String)                                                        -- x::d
+deriving Repr
+
+inductive Out
+  | val (v : Val)
+  | undef
+  | num (n : Nat)
+  | pairs (ps : List (Key × Val))     -- one entry per application of the function, in order
+  | vals (vs : List Val)
+  | keyError
+  | fn
+  | bad                               -- the request is outside the modelled programs
+deriving Repr, DecidableEq
+
+def bindOpt (vars : List (String × Val)) : Option String → Val → List (String × Val)
+  | none, _ => vars
+  | some x, v => (x, v) :: vars
+
+/-- the dictionary a variable refers to -/
+def State.deref (s : State) (x : String) : Option (Nat × Dict) :=
+  match s.vars.lookup x with
+  | some (.ref r) =>
+    match s.heap[r]? with
+    | some d => some (r, d)
+    | none => none
+  | _ => none
+
+def resolve (vars : List (String × Val)) : Arg → Option Val
+  | .data w => some (.data w)
+  | .var x => vars.lookup x
+
+def step (s : State) : Op → State × Out
+  | .lit x ps =>
+    ({ s with heap := s.heap ++ [Dict.ofPairs (lits ps)]
+            , vars := (x, .ref s.heap.length) :: s.vars }, .val (.ref s.heap.length))
+  | .deffn f ps =>
+    ({ s with protos := (f, Dict.ofPairs (lits ps)) :: s.protos }, .fn)
+  | .call x f =>
+    match s.protos.lookup f with
+    | none => (s, .bad)
+    | some p =>
+      ({ s with heap := s.heap ++ [p]
+              , vars := (x, .ref s.heap.length) :: s.vars }, .val (.ref s.heap.length))
+  | .join _ d k a into =>
+    match s.deref d, resolve s.vars a with
+    | some (r, dict), some v =>
+      ({ s with heap := s.heap.set r (dict.set k v)
+              , vars := bindOpt s.vars into (.ref r) }, .val (.ref r))
+    | _, _ => (s, .bad)
+  | .remove d k into =>
+    match s.deref d with
+    | some (r, dict) =>
+      ({ s with heap := s.heap.set r (dict.del k)
+              , vars := bindOpt s.vars into (.ref r) }, .val (.ref r))
+    | none => (s, .bad)
+  | .find d k into =>
+    match s.deref d with
+    | none => (s, .bad)
+    | some (_, dict) =>
+      match dict.get k, into with
+      | some v, _ => ({ s with vars := bindOpt s.vars into v }, .val v)
+      | none, none => (s, .undef)
+      | none, some _ => (s, .bad)
+  | .index d k into =>
+    match s.deref d with
+    | none => (s, .bad)
+    | some (r, dict) =>
+      match k with
+      | .int _ =>
+        match dict.get k with
+        | some v => ({ s with vars := bindOpt s.vars into v }, .val v)
+        | none => (s, .keyError)
+      | _ => ({ s with vars := bindOpt s.vars into (.ref r) }, .val (.ref r))
+  | .indexMany d ks =>
+    match s.deref d with
+    | none => (s, .bad)
+    | some (_, dict) =>
+      match ks.mapM dict.get with
+      | some vs => (s, .vals vs)
+      | none => (s, .keyError)
+  | .size d =>
+    match s.deref d with
+    | none => (s, .bad)
+    | some (_, dict) => (s, .num dict.length)
+  | .each d =>
+    match s.deref d with
+    | none => (s, .bad)
+    | some (_, dict) => (s, .pairs dict)
+  | .alias x d =>
+    match s.vars.lookup d with
+    | some v => ({ s with vars := (x, v) :: s.vars }, .val v)
+    | none => (s, .bad)
+
+def run (s : State) : List Op → State × List Out
+  | [] => (s, [])
+  | op :: ops =>
+    let (s1, o) := step s op
+    let (s2, os) := run s1 ops
+    (s2, o :: os)
+
+/-! ### abstract specification: a heap of finite maps over key identities -/
+
+abbrev AMap := NKey → Option Val
+
+def AMap.empty : AMap := fun _ => none
+
+def AMap.upd (m : AMap) (k : NKey) (v : Option Val) : AMap := fun k' => if k' = k then v else m k'
+
+def AMap.ofPairs (ps : List (Key × Val)) : AMap :=
+  ps.foldl (fun m p => m.upd p.1.norm (some p.2)) AMap.empty
+
+structure AState where
+  heap : List AMap
+  vars : List (String × Val)
+  protos : List (String × AMap)
+
+def AState.deref (a : AState) (x : String) : Option (Nat × AMap) :=
+  match a.vars.lookup x with
+  | some (.ref r) =>
+    match a.heap[r]? with
+    | some m => some (r, m)
+    | none => none
+  | _ => none
+
+/-- what every operation does to the heap of maps and the variables -/
+def specStep (a : AState) : Op → AState
+  | .lit x ps =>
+    { a with heap := a.heap ++ [AMap.ofPairs (lits ps)], vars := (x, .ref a.heap.length) :: a.vars }
+  | .deffn f ps => { a with protos := (f, AMap.ofPairs (lits ps)) :: a.protos }
+  | .call x f =>
+    match a.protos.lookup f with
+    | none => a
+    | some m => { a with heap := a.heap ++ [m], vars := (x, .ref a.heap.length) :: a.vars }
+  | .join _ d k v into =>
+    match a.deref d, resolve a.vars v with
+    | some (r, m), some v =>
+      { a with heap := a.heap.set r (m.upd k.norm (some v)), vars := bindOpt a.vars into (.ref r) }
+    | _, _ => a
+  | .remove d k into =>
+    match a.deref d with
+    | some (r, m) =>
+      { a with heap := a.heap.set r (m.upd k.norm none), vars := bindOpt a.vars into (.ref r) }
+    | none => a
+  | .find d k into =>
+    match a.deref d with
+    | none => a
+    | some (_, m) =>
+      match m k.norm with
+      | some v => { a with vars := bindOpt a.vars into v }
+      | none => a
+  | .index d k into =>
+    match a.deref d with
+    | none => a
+    | some (r, m) =>
+      match k with
+      | .int _ =>
+        match m k.norm with
+        | some v => { a with vars := bindOpt a.vars into v }
+        | none => a
+      | _ => { a with vars := bindOpt a.vars into (.ref r) }
+  | .indexMany _ _ => a
+  | .size _ => a
+  | .each _ => a
+  | .alias x d =>
+    match a.vars.lookup d with
+    | some v => { a with vars := (x, v) :: a.vars }
+    | none => a
+
+/-- the results the property allows for an operation in abstract state `a` -/
+def specOut (a : AState) : Op → Out → Prop
+  | .lit _ _, o => o = .val (.ref a.heap.length)
+  | .deffn _ _, o => o = .fn
+  | .call _ f, o =>
+    match a.protos.lookup f with
+    | none => o = .bad
+    | some _ => o = .val (.ref a.heap.length)
+  | .join _ d _ v _, o =>
+    match a.deref d, resolve a.vars v with
+    | some (r, _), some _ => o = .val (.ref r)
+    | _, _ => o = .bad
+  | .remove d _ _, o =>
+    match a.deref d with
+    | some (r, _) => o = .val (.ref r)
+    | none => o = .bad
+  | .find d k into, o =>
+    match a.deref d with
+    | none => o = .bad
+    | some (_, m) =>
+      match m k.norm, into with
+      | some v, _ => o = .val v
+      | none, none => o = .undef           -- a missing key yields :undefined
+      | none, some _ => o = .bad
+  | .index d k _, o =>
+    match a.deref d with
+    | none => o = .bad
+    | some (r, m) =>
+      match k with
+      | .int _ =>
+        match m k.norm with
+        | some v => o = .val v
+        | none => o = .keyError
+      | _ => o = .val (.ref r)
+  | .indexMany d ks, o =>
+    match a.deref d with
+    | none => o = .bad
+    | some (_, m) =>
+      match ks.mapM (fun k => m k.norm) with
+      | some vs => o = .vals vs
+      | none => o = .keyError
+  | .size d, o =>
+    match a.deref d with
+    | none => o = .bad
+    | some (_, m) =>
+      -- #d is the number of distinct keys: the length of a duplicate-free list of exactly
+      -- the keys bound in the map
+      ∃ ks : List NKey, ks.Nodup ∧ (∀ k, k ∈ ks ↔ (m k).isSome) ∧ o = .num ks.length
+  | .each d, o =>
+    match a.deref d with
+    | none => o = .bad
+    | some (_, m) =>
+      -- f'd applies f to every key/value pair exactly once, in any order
+      ∃ ps : List (Key × Val), o = .pairs ps ∧ (ps.map (fun p => p.1.norm)).Nodup ∧
+        ∀ k v, (∃ k', (k', v) ∈ ps ∧ k'.norm = k) ↔ m k = some v
+  | .alias _ d, o =>
+    match a.vars.lookup d with
+    | some v => o = .val v
+    | none => o = .bad
+
+def specRun (a : AState) : List Op → AState
+  | [] => a
+  | op :: ops => specRun (specStep a op) ops
+
+/-- every result of a history is one the specification allows in the state it was produced in -/
+def specAccepts (a : AState) : List Op → List Out → Prop
+  | [], [] => True
+  | op :: ops, o :: os => specOut a op o ∧ specAccepts (specStep a op) ops os
+  | _, _ => False
+
+/-- abstraction: an association list read as a finite map over key identities -/
+def absDict (d : Dict) : AMap := fun nk =>
+  match d.find? (fun p => p.1.norm == nk) with
+  | some p => some p.2
+  | none => none
+
+def abs (s : State) : AState :=
+  { heap := s.heap.map absDict, vars := s.vars, protos := s.protos.map (fun p => (p.1, absDict p.2)) }
+
+/-! ### invariant of reachable states -/
+
+/-- no two stored keys of a dictionary are equal -/
+def WFd (d : Dict) : Prop := (d.map (fun p => p.1.norm)).Nodup
+
+def valOK (n : Nat) : Val → Prop
+  | .ref r => r < n
+  | .data _ => True
+
+structure Inv (s : State) : Prop where
+  heapWF : ∀ d ∈ s.heap, WFd d
+  protoWF : ∀ p ∈ s.protos, WFd p.2
+  varsOK : ∀ p ∈ s.vars, valOK s.heap.length p.2
+  heapOK : ∀ d ∈ s.heap, ∀ p ∈ d, valOK s.heap.length p.2
+  protoOK : ∀ q ∈ s.protos, ∀ p ∈ q.2, valOK 0 p.2     -- a literal holds no dictionary
+
+/-! ### driver -/
+
+def showNKey : NKey → String
+  | .num n => s!"i{n}"
+  | .frac p k => s!"r{p}/{k}"
+  | .text s => s!"t{s}"
+  | .sym s => s!"y{s}"
+
+def showVal : Val → String
+  | .data w => w
+  | .ref r => s!"D{r}"
+
+def sortStrings (xs : List String) : List String := (xs.toArray.qsort (· < ·)).toList
+
+def showPairs (d : List (Key × Val)) : String :=
+  ";".intercalate (sortStrings (d.map fun p => s!"{showNKey p.1.norm}~{showVal p.2}"))
+
+def showOut : Out → String
+  | .val v => showVal v
+  | .undef => "U"
+  | .num n => s!"n{n}"
+  | .pairs ps => s!"P{ps.length}:" ++ showPairs ps
+  | .vals vs => "L(" ++ ";".intercalate (vs.map showVal) ++ ")"
+  | .keyError => "KeyError"
+  | .fn => "fn"
+  | .bad => "bad-op"
+
+def dedupNames : List String → List String
+  | [] => []
+  | x :: xs => x :: (dedupNames xs).filter (· != x)
+
+def digest (s : State) : String :=
+  let names := sortStrings (dedupNames (s.vars.map (·.1)))
+  let vs := names.map fun x => s!"{x}>{match s.vars.lookup x with | some v => showVal v | none => "?"}"
+  let hs := s.heap.map fun d => "{" ++ showPairs d ++ "}"
+  "vars:" ++ ";".intercalate vs ++ "|heap:" ++ "".intercalate hs
+
+def parseKey (tok : String) : Option Key :=
+  match tok.toList with
+  | 'i' :: rest => (String.ofList rest).toInt?.map Key.int
+  | 'r' :: rest =>
+    match (String.ofList rest).splitOn "/" with
+    | [p, k] => do
+      let p ← p.toInt?
+      let k ← k.toNat?
+      pure (Key.real p k)
+    | _ => none
+  | 'c' :: rest => some (.chr (String.ofList rest))
+  | 's' :: rest => some (.str (String.ofList rest))
+  | 'y' :: rest => some (.sym (String.ofList rest))
+  | _ => none
+
+def parseArg (tok : String) : Option Arg :=
+  match tok.toList with
+  | [] => none
+  | '@' :: rest => some (.var (String.ofList rest))
+  | _ => some (.data tok)
+
+def parsePairs (toks : List String) : Option (List (Key × String)) :=
+  toks.mapM fun t =>
+    match t.splitOn "~" with
+    | [k, v] => if v.isEmpty then none else (parseKey k).map fun k => (k, v)
+    | _ => none
+
+def parseInto (fs : List (String × String)) : Option String :=
+  match fieldD fs "into" with
+  | "" => none
+  | x => some x
+
+def parseOp (ws : List String) : Option Op :=
+  match ws with
+  | [] => none
+  | w :: rest =>
+    let fs := fields rest
+    let name := fun k => match fieldD fs k with | "" => (none : Option String) | x => some x
+    match w with
+    | "lit" => do
+      let x ← name "x"
+      let ps ← parsePairs (listField fs "ps")
+      pure (.lit x ps)
+    | "deffn" => do
+      let f ← name "f"
+      let ps ← parsePairs (listField fs "ps")
+      pure (.deffn f ps)
+    | "call" => do
+      let x ← name "x"
+      let f ← name "f"
+      pure (.call x f)
+    | "join" => do
+      let d ← name "d"
+      let k ← parseKey (fieldD fs "k")
+      let a ← parseArg (fieldD fs "v")
+      let left ← match fieldD fs "side" with | "L" => some true | "R" => some false | _ => none
+      pure (.join left d k a (parseInto fs))
+    | "remove" => do
+      let d ← name "d"
+      let k ← parseKey (fieldD fs "k")
+      pure (.remove d k (parseInto fs))
+    | "find" => do
+      let d ← name "d"
+      let k ← parseKey (fieldD fs "k")
+      pure (.find d k (parseInto fs))
+    | "index" => do
+      let d ← name "d"
+      let k ← parseKey (fieldD fs "k")
+      pure (.index d k (parseInto fs))
+    | "indexmany" => do
+      let d ← name "d"
+      let ks ← (listField fs "ks").mapM parseKey
+      pure (.indexMany d ks)
+    | "size" => do
+      let d ← name "d"
+      pure (.size d)
+    | "each" => do
+      let d ← name "d"
+      pure (.each d)
+    | "alias" => do
+      let x ← name "x"
+      let d ← name "d"
+      pure (.alias x d)
+    | _ => none
+
+def handle (s : State) (ws : List String) : State × String :=
+  match ws with
+  | ["reset"] => (init, "out=ok state=" ++ digest init)
+  | _ =>
+    match parseOp ws with
+    | none => (s, "bad-op")
+    | some op =>
+      let (s', o) := step s op
+      (s', "out=" ++ showOut o ++ " state=" ++ digest s')
 
 end Klong.C10
